@@ -81,7 +81,7 @@ class StoreProfile(Profile):
         self.df = None
 
     def tier_runs(self, tier):
-        return {"quick": 2000, "thorough": 60000}[tier]
+        return {"quick": 3000, "thorough": 100000}[tier]
 
     def new_state(self, config, stats):
         if self.df is None:
